@@ -5,6 +5,8 @@ from props._common import run_rules
 
 def run(chk):
     chk.level = "proof"
+    from props import native_diff
+    native_diff.run(chk, "C11")
     from props import backend_conformance
     backend_conformance.run(chk, "C11", names=('cholesky', 'lu', 'solvetri', 'eye'))
     chk.assume("np.linalg.cholesky / scipy.linalg.lu meet their mathematical contracts (dependency contracts); pivot growth and "
